@@ -11,13 +11,15 @@ import common
 from common import BIN, BUILD, Verdict, log
 
 
-def run_harness(mode, seed, n, extra=None):
-    """Runs the Go codec driver; returns the list of case records."""
+def run_harness(mode, seed, n, extra=None, binary="codec"):
+    """Runs a Go driver; returns the list of case records."""
     os.makedirs(os.path.join(BUILD, "runs"), exist_ok=True)
-    fd, path = tempfile.mkstemp(prefix="codec-%s-" % mode, suffix=".jsonl", dir=os.path.join(BUILD, "runs"))
+    fd, path = tempfile.mkstemp(prefix="%s-%s-" % (binary, mode), suffix=".jsonl", dir=os.path.join(BUILD, "runs"))
     os.close(fd)
     try:
-        cmd = [os.path.join(BIN, "codec"), "-mode", mode, "-seed", str(seed), "-n", str(n), "-out", path]
+        cmd = [os.path.join(BIN, binary), "-seed", str(seed), "-n", str(n), "-out", path]
+        if binary == "codec":
+            cmd += ["-mode", mode]
         if extra:
             cmd += extra
         p = subprocess.run(cmd, timeout=3000, stdout=subprocess.PIPE, stderr=subprocess.STDOUT, text=True,
@@ -47,12 +49,14 @@ def load_corpus(pid):
     return out
 
 
-def compare(recs):
+def compare(recs, family="codec", normalise=None):
     """Runs the model on every (non-skipped) case; returns the list of mismatching records."""
     todo = [r for r in recs if not r.get("skip")]
-    answers = common.run_model([r["case"] for r in todo])
+    answers = common.run_model([r["case"] for r in todo], family=family)
     mism = []
     for r, a in zip(todo, answers):
+        if normalise:
+            a = normalise(a)
         r["model"] = a
         if a != r["impl"]:
             mism.append(r)
@@ -69,6 +73,8 @@ def first_diff(a, b):
 
 def brief(rec, limit=400):
     d = {k: rec.get(k) for k in ("id", "mode", "case", "impl", "model", "oracle", "tags")}
+    if d.get("tags"):
+        d["tags"] = [t if len(t) < limit else t[:limit] + "..." for t in d["tags"]]
     for k in ("case", "impl", "model"):
         if isinstance(d.get(k), str) and len(d[k]) > limit:
             d[k] = d[k][:limit] + "...(%d chars)" % len(rec[k])
@@ -76,22 +82,23 @@ def brief(rec, limit=400):
 
 
 def generic_codec_check(pid, tier, seed, t0, runs, gate_pid=None, nontrivial=None, rule="", known_match=None,
-                        assumptions=None):
+                        assumptions=None, binary="codec", family="codec", normalise=None, extra_cov=None):
     """runs: list of (mode, n_quick, n_thorough, extra_args). Oracles keyed by pid in each record."""
     v = Verdict(pid)
     gate = common.proof_gate(gate_pid or pid)
     recs = []
     for mode, nq, nt, extra in runs:
         n = nq if tier == "quick" else nt
-        recs += run_harness(mode, seed, n, extra)
-    mism = compare(recs)
+        recs += run_harness(mode, seed, n, extra, binary=binary)
+    mism = compare(recs, family=family, normalise=normalise)
     oracle_fail = []
     tags = collections.Counter()
     distinct = set()
     skipped = 0
     for r in recs:
         for t in r.get("tags") or []:
-            tags[t] += 1
+            if not t.startswith("scenario="):
+                tags[t] += 1
         o = (r.get("oracle") or {}).get(pid, "")
         if o.startswith("fail"):
             oracle_fail.append(r)
@@ -149,6 +156,8 @@ def generic_codec_check(pid, tier, seed, t0, runs, gate_pid=None, nontrivial=Non
         "max_size_bytes": max([r.get("size", 0) for r in recs] or [0]),
         "samples": samples,
     }
+    if extra_cov:
+        cov.update(extra_cov)
     common.write_evidence(pid, tier, seed, cov, time.time() - t0, len(v.violations), assumptions or [])
     return v.finish()
 
